@@ -201,6 +201,18 @@ func run(ci any, r *mon.Rec) {
 		}); ok {
 			lookups(c, r, "fc2.IsInputSet", in.IsInputSet, payload, c.Start, truth)
 		}
+		// the same payload in hand-built response values (a server fills only what Bytes() needs; the length field may be
+		// unset or stale): lookups are defined by the payload, not by that field
+		if c.Len <= 64 {
+			for _, bl := range []uint8{0, uint8(c.Len), uint8(c.Len / 2), 255} {
+				pl := append([]byte{}, payload...)
+				if c.FC == 1 {
+					lookups(c, r, "fc1.literal.IsCoilSet", packet.ReadCoilsResponse{UnitID: 1, CoilsByteLength: bl, Data: pl}.IsCoilSet, pl, c.Start, func(i int) bool { return specref.CoilBit(pl, i) })
+				} else {
+					lookups(c, r, "fc2.literal.IsInputSet", packet.ReadDiscreteInputsResponse{UnitID: 1, InputsByteLength: bl, Data: pl}.IsInputSet, pl, c.Start, func(i int) bool { return specref.CoilBit(pl, i) })
+				}
+			}
+		}
 		r.Distinct(mon.Mix(1, uint64(c.FC), uint64(fr), uint64(c.Len), mon.HashS(startCls(c.Start, 8*c.Len))))
 		if c.Len%50 == 1 {
 			r.Sample(c)
